@@ -12,12 +12,12 @@ def transports(ck):
     ck.run_driver("./transport", "^TestTransports$", {"VERIF_OUT": tr, "VERIF_OUT2": o2}, timeout=900)
     res = ck.read_result(o2)
     n = sum(1 for _ in open(tr))
-    if res["items"] < 300 * res["rounds"]:
+    if res["items"] < 1000 * res["rounds"]:
         raise Infra("vacuous: transport clients received %d items in %d rounds" % (res["items"], res["rounds"]))
-    rt = ck.tlc("fanout", "TransportTrace", "TransportTrace.cfg", workers=1, env={"VERIF_TRACE": tr}, label="acceptance of what 7 real clients received (%d records)" % n, timeout=900)
+    rt = ck.tlc("fanout", "TransportTrace", "TransportTrace.cfg", workers=1, env={"VERIF_TRACE": tr}, label="acceptance of what 9 real clients received (%d records)" % n, timeout=900)
     if rt.distinct != n + 1:
         raise Infra("trace validation consumed %d of %d" % (rt.distinct - 1, n))
-    ck.cov["transport_leg"] = {"rounds": res["rounds"], "items_received": res["items"], "clients": ["RTSP/TCP", "RTSP/UDP", "ws-rtsp", "HTTP-FLV", "WSP (late)", "WebSocket-FLV (late)", "RTSP/TCP (late)"]}
+    ck.cov["transport_leg"] = {"rounds": res["rounds"], "items_received": res["items"], "clients": ["RTSP/TCP (leaves)", "RTSP/UDP", "ws-rtsp", "HTTP-FLV", "WSP (cut off in mid stream)", "WSP (late)", "WebSocket-FLV (late)", "RTSP/TCP (late)", "WSP (late, second)"]}
     ck.cov["traces_validated_against_impl"] += res["rounds"]
     seen = set()
     for b in rt.printed("@BAD"):
